@@ -3,7 +3,7 @@ Oracle for C02: re-computes what the model of the client's authentication logic 
 for one connection and evaluates the spec ("completed ⇒ Authenticated", "failed ⇒ nothing
 reported, nothing delivered") on what the real client did.
 
-case     : `stack=tlcp|dtlcp suite=ecc-gcm|ecc-cbc|ecdhe-gcm|ecdhe-cbc scen=<name> skip=0|1 peer=real|script
+case     : `stack=tlcp|dtlcp suite=ecc-gcm|ecc-cbc|ecdhe-gcm|ecdhe-cbc scen=<name> skip=0|1 [cb=<p><c>] peer=real|script
             certmsg=b ncerts=n parse=b c0=<kind>:<chainOK>:<id>|- c1=…|-
             skx=b wf=b sigvalid=b signer=<id> scr=this|old ssr=this|old sparams=<id>|carried|other|none intact=b
             creq=b clienc=b done=b ckx=b fin=b sess=none|<n>:<chainSigNow>:<chainEncNow> sresume=b sfin=b
@@ -12,6 +12,11 @@ case     : `stack=tlcp|dtlcp suite=ecc-gcm|ecc-cbc|ecdhe-gcm|ecdhe-cbc scen=<nam
             `psecret`: the master secret the peer computed its Finished with — scenario ground
             truth; `sfin`: the driver's own comparison of that secret with the session's.  Both
             optional: absent = no eviction, the peer's secret is the session's iff `sfin`.)
+           (`cb`: the client's Config.VerifyPeerCertificate <p> and Config.VerifyConnection <c>, each
+            `-` not installed, `a` installed and returning nil, `r` installed and returning an
+            error; absent = `--`.  The callbacks are inputs of the MODEL only: the spec never looks
+            at them — what user code answers is no evidence about the peer, so a callback can make
+            the client refuse but can never excuse a completion.)
 observed : `client=completed|failed(<class>) resumed=b hs_complete=b read=<n>`
 
 The model is run over the *symbolic* description of the signature (who signed, over which
@@ -59,6 +64,17 @@ def parseCert (s : String) : Option (Option (CertView String String)) :=
     let kind ← parseKind k
     let chain ← (if c == "1" then some true else if c == "0" then some false else none)
     pure (some { key := id, kind := kind, chainOK := chain, der := id })
+  | _ => none
+
+def parseCallback (c : Char) : Option (Option Bool) :=
+  if c == '-' then some none else if c == 'a' then some (some true) else if c == 'r' then some (some false) else none
+
+def parseCallbacks (s : String) : Option Callbacks :=
+  match s.toList with
+  | [p, c] => do
+    let vpc ← parseCallback p
+    let vc ← parseCallback c
+    pure { vpc := vpc, vc := vc }
   | _ => none
 
 def parseSess (s : String) : Option (Option (Nat × Bool × Bool)) :=
@@ -110,6 +126,7 @@ def judge (c o : String) : Option Verdict := do
   let suite ← kv t "suite"
   let kex ← (if suite.startsWith "ecc-" then some Kex.ecc else if suite.startsWith "ecdhe-" then some Kex.ecdhe else none)
   let skip ← kvBool t "skip"
+  let cbs ← parseCallbacks ((kv t "cb").getD "--")
   let certmsg ← kvBool t "certmsg"
   let ncerts ← kvNat t "ncerts"
   let parse ← kvBool t "parse"
@@ -151,10 +168,10 @@ def judge (c o : String) : Option Verdict := do
     { kex := kex, clientRandom := "this", serverRandom := "this", certMsg := certmsg, certs := certs,
       parseOK := parse,
       skx := if skxP then some { wellFormed := wf, ecdhParams := "carried", sig := sig } else none,
-      certReq := creq, clientEncCert := clienc, helloDone := done, ckxOK := ckx, finishedOK := fin }
+      certReq := creq, clientEncCert := clienc, helloDone := done, ckxOK := ckx, finishedOK := fin, cb := cbs }
   let sv : Option SessView := sess.map fun (n, a, b) =>
     { nCerts := n, chainSig := a, chainEnc := b, serverResumes := sresume, versOK := true, suiteOK := true,
-      evictedInWindow := sevict == "window", evictedAfterLoad := sevict == "afterload", peerFin := psecret }
+      evictedInWindow := sevict == "window", evictedAfterLoad := sevict == "afterload", peerFin := psecret, cb := cbs }
   let res := connect (paramsOf st) symVerify skip { session := sv, full := full }
   let mDidResume := didResume (paramsOf st) skip ({ session := sv, full := full } : ConnView String String String SymSig)
   let mCompleted := res.result.outcome.isCompleted
